@@ -113,15 +113,15 @@ ADDED = {
  "C04": "Also: the FIFO-to-priority-ring switch condition and the arrival-order migration; the priority bypass is decided on path facts whether or not a helper holds it.",
  "C05": "Also: sweepers re-arm an entry only after testing its tombstone clear.",
  "C06": "Also: the long-table entry is removed under the deadline read before the update; re-arm only after the tombstone test; recycled long-wait buckets are re-initialised. The millisecond sweep must consult a field an update rewrites before ending a hold (known finding: it does not).",
- "C07": "Also: log-file lists are snapshot-first; UnLock clears the persisted mark only with removal. A pooled Lock object enters or leaves the pool with its persisted mark cleared.",
+ "C07": "Also: log-file lists are snapshot-first; UnLock clears the persisted mark only with removal. A pooled Lock object enters or leaves the pool with its persisted mark cleared. A hold's persistence mode is never copied from another hold (known finding: later holders of a shared key inherit the first holder's mode).",
  "C08": "Also: values buffered only with records; readers never return io.ReadFull's error unmapped; oversized values written directly only with the record buffer empty. Readers return a constructed error only about a completely read item; the newest append file is cut back to whole records before appending (three reproduced crash-recovery defects were repaired). Something must truncate the value file after a torn value (known finding: nothing does).",
  "C09": "Also: receive ring >= queue capacity + 2; live append file touched only under the append mutex (a reproduced race was repaired); the ring examines all 16 id bytes.",
  "C10": "Also: the follower's only local answer needs the concurrent-check flag and Timeout == 0; replayed holds are marked persisted independent of role. Server.handle re-dispatches the request a protocol object had already read when the role changed under it. The wake-up pass must test the role before granting (known finding: it does not).",
  "C11": "Also: a new ack table is recounted after publication; the queued timeout stays armed on the ack-pending wake-up path. ProcessLeaderPushLock tracks or fails a pending ack request on every return. The rollback clears the logged mark of every value object it restores.",
  "C12": "Also: the outstanding-commit marker is cleared only at a closed list of points. The log-position comparator weighs the id bytes the way the log writes them, file index major (a reproduced ordering defect was repaired).",
  "C13": "Also: parser upper bounds and the reply buffer's headroom by linear entailment; the recycled text reply is fully reassigned; fixed-capacity table indexes. Allocations sized by an integer decoded from the wire are bounded. Table indexes decoded from a client's message are bounded; slices of the stored frame bounded by request-supplied lengths stay within it; value-frame walkers are bounded by the frame (four reproduced crash inputs were repaired). GetValueOffset never points beyond the frame (reproduced crash inputs repaired).",
- "C14": "Also: parser cursors (two reproduced chunking defects repaired), key/id normaliser totality, converters define every wire field of the pooled command.",
- "C15": "Also: no aliasing of the stored value into results; the pre-operation value is read before it is cleared. Redis-style result writers say error only where the engine's result says so; a binary request's data frame is a private buffer. On a grant the key's depth is incremented before the value operation runs. No comparison mixes the request-type and value-operation enumerations (known finding: PIPELINE).",
+ "C14": "Also: parser cursors (two reproduced chunking defects repaired), key/id normaliser totality, converters define every wire field of the pooled command; an empty list completes at the element-count line (defect repaired); the option loop ends after the rest of the arguments is handed to a nested conversion (defect repaired).",
+ "C15": "Also: no aliasing of the stored value into results; the pre-operation value is read before it is cleared. Redis-style result writers say error only where the engine's result says so; a binary request's data frame is a private buffer. On a grant the key's depth is incremented before the value operation runs. No comparison mixes the request-type and value-operation enumerations (known finding: PIPELINE). Every allocated value frame that is handed on as a frame has its own length minus four stored in its first four bytes before the hand-over (29 allocations).",
  "C16": "Also: replay quiescence is decided on the channels' queue counters (a reproduced start-up compaction race was repaired); nothing retired after publishing may be the published snapshot; log-file lists snapshot-first. HasLock reports a non-LOCK record gone only when no hold with its id exists. A compaction computes its input list once, before the load.",
  "C17": "Also: queue compaction and migration return the reference of every entry they drop. A function that answers a queued request itself tombstones it before scanning the wait queue.",
  "C18": "Also: AddProxy succeeds only after tracking the proxy. The code that registers a will does not return the registered command object to the pool. The will drain dispatches through the closing protocol object and every tracked proxy is repointed before the list is truncated; no reply is sent on the text reply channel once the connection is closed (a reproduced blocked Close was repaired).",
